@@ -23,14 +23,16 @@ import (
 
 	"github.com/tetratelabs/wazero"
 	"github.com/tetratelabs/wazero/api"
+	"github.com/tetratelabs/wazero/experimental"
 	"github.com/tetratelabs/wazero/verifharness/gen"
 	"github.com/tetratelabs/wazero/verifharness/hx"
 )
 
 var (
-	orc *hx.Oracle
-	rep *hx.Report
-	ctx = context.Background()
+	orc      *hx.Oracle
+	rep      *hx.Report
+	ctx      = context.Background()
+	features = api.CoreFeaturesV2 | experimental.CoreFeaturesTailCall
 )
 
 type hostLog struct{ entries []string }
@@ -205,7 +207,7 @@ func replayFile(path string) {
 	for _, e := range []struct {
 		n  string
 		rc wazero.RuntimeConfig
-	}{{"interpreter", wazero.NewRuntimeConfigInterpreter()}, {"compiler", wazero.NewRuntimeConfigCompiler()}} {
+	}{{"interpreter", wazero.NewRuntimeConfigInterpreter().WithCoreFeatures(features)}, {"compiler", wazero.NewRuntimeConfigCompiler().WithCoreFeatures(features)}} {
 		inst, err := instantiate(e.n, e.rc, m, bin)
 		if err != nil {
 			fmt.Printf("%s: instantiate: %v\n", e.n, err)
@@ -257,7 +259,7 @@ func runProgram(r *rand.Rand, pi int, cfg gen.Config, useLean bool) {
 	for _, e := range []struct {
 		n  string
 		rc wazero.RuntimeConfig
-	}{{"interpreter", wazero.NewRuntimeConfigInterpreter()}, {"compiler", wazero.NewRuntimeConfigCompiler()}} {
+	}{{"interpreter", wazero.NewRuntimeConfigInterpreter().WithCoreFeatures(features)}, {"compiler", wazero.NewRuntimeConfigCompiler().WithCoreFeatures(features)}} {
 		inst, err := instantiate(e.n, e.rc, m, bin)
 		if err != nil {
 			rep.Violate(hx.Violation{Kind: "impl-violation", Signature: "C01:valid-module-rejected:" + e.n, What: "generated valid module rejected: " + err.Error(),
@@ -361,6 +363,8 @@ func main() {
 	}
 	for pi := 0; pi < progs; pi++ {
 		cfg := gen.Config{MaxFuncs: 1 + r.Intn(6), MaxDepth: 2 + r.Intn(4), MaxStmts: 1 + r.Intn(6), Floats: r.Intn(4) > 0, Memory: true, Imports: r.Intn(3), Bulk: r.Intn(2) == 0}
+		cfg.TailCalls = r.Intn(3) == 0
+		cfg.SIMD = r.Intn(4) == 0 // outside the Lean fragment: engines compared with each other only
 		if r.Intn(4) == 0 { // register-pressure / ABI-cliff profile: many params, results and locals
 			cfg.MaxParams, cfg.MaxResults, cfg.MaxLocals = 6+r.Intn(10), 1+r.Intn(5), 8+r.Intn(16)
 			cfg.MaxDepth = 2 + r.Intn(2)
@@ -368,7 +372,7 @@ func main() {
 		if os.Getenv("HC01_V") != "" {
 			fmt.Fprintf(os.Stderr, "prog %d %+v\n", pi, cfg)
 		}
-		runProgram(r, pi, cfg, !*noLean)
+		runProgram(r, pi, cfg, !*noLean && !cfg.SIMD)
 	}
 	rep.Write(orc)
 }
